@@ -819,6 +819,17 @@ theorem answer_refines (q : Query) {s : CState} (hs : SInv lg s) (hn : NoLegacyS
         rw [t0.1, r0'] at z0
         rw [z, z0]
         exact ⟨rfl, k, (m.1.trans t.1).trans r.1⟩
+  | defaultValue c => exact ⟨rfl, hs, rfl⟩
+  | defaultUnit c => exact ⟨rfl, hs, rfl⟩
+  | findUnitCase c u => exact ⟨rfl, hs, rfl⟩
+  | findSimilar u => exact ⟨rfl, hs, rfl⟩
+  | checkValueFor c u x =>
+    obtain ⟨v, i, r⟩ := obtain_good lg false c u s hs hn
+    obtain ⟨v0, _, _⟩ := obtain_good lg false c u _ hf hnf
+    simp only [answer]
+    simp only at v v0 i r
+    rw [v, v0]
+    exact ⟨rfl, i, r⟩
 
 /-! ### queries never touch the registry (no hypothesis at all) -/
 
@@ -969,6 +980,11 @@ theorem answer_reg (s : CState) (q : Query) : (answer lg s q).1.reg = s.reg := b
       · exact (obtainDict_dext lg _ false e2).1.trans (obtainDict_dext lg s false e1).1
       · exact ((sumDerived_dext lg _ op _ _ x y).1.trans (obtainDict_dext lg _ false e2).1).trans
           (obtainDict_dext lg s false e1).1
+  | defaultValue c => rfl
+  | defaultUnit c => rfl
+  | findUnitCase c u => rfl
+  | findSimilar u => rfl
+  | checkValueFor c u x => exact obtain_reg lg s false c u
 
 /-- no query adds a wrong entry to the derived part of the cache -/
 theorem answer_dext (s : CState) (q : Query) : DExt lg s (answer lg s q).1 := by
@@ -1027,6 +1043,11 @@ theorem answer_dext (s : CState) (q : Query) : DExt lg s (answer lg s q).1 := by
       · exact dext_trans lg (obtainDict_dext lg s false e1) (obtainDict_dext lg _ false e2)
       · exact dext_trans lg (dext_trans lg (obtainDict_dext lg s false e1) (obtainDict_dext lg _ false e2))
           (sumDerived_dext lg _ op _ _ x y)
+  | defaultValue c => exact dext_refl lg s
+  | defaultUnit c => exact dext_refl lg s
+  | findUnitCase c u => exact dext_refl lg s
+  | findSimilar u => exact dext_refl lg s
+  | checkValueFor c u x => exact ob s false c u
 
 /-! ### registrations whose unit symbols are not legacy spellings keep `NoLegacySyms` -/
 
@@ -1083,6 +1104,13 @@ theorem step_noLegacy {r : Registry} (hr : RegInv r) (h : NoLegacySyms lg r) {op
     rcases addCategory_spec lg r a with ⟨e, he⟩ | ⟨c, info, _, _, _, he⟩
     · rw [he]; exact h
     · rw [he]; exact h
+  | addCategoryN a0 n1 n2 n3 =>
+    have : (addCategory lg r (inheritFlags r a0 n1 n2 n3)).1 = (step lg r (.addCategoryN a0 n1 n2 n3)).1 := by
+      simp only [step]; cases addCategory lg r (inheritFlags r a0 n1 n2 n3) with | mk r1 o => cases o <;> rfl
+    rw [← this]
+    rcases addCategory_spec lg r (inheritFlags r a0 n1 n2 n3) with ⟨e, he⟩ | ⟨c, info, _, _, _, he⟩
+    · rw [he]; exact h
+    · rw [he]; exact h
 
 /-! ### sessions -/
 
@@ -1109,5 +1137,88 @@ theorem cstep_reg_out (s : CState) (op : RegOp) :
     (cstep lg s (.reg op)).2 = exMap COut.reg (step lg s.reg op).2 ∧ (cstep lg s (.reg op)).1.reg = (step lg s.reg op).1 := by
   simp only [cstep]
   cases (step lg s.reg op).2 <;> exact ⟨rfl, rfl⟩
+
+/-! ### sessions with uninterpreted arithmetic -/
+
+/-- the step does not register a unit under a legacy spelling -/
+def xopClean : XOp → Bool
+  | .base op => opClean lg op
+  | .arith _ => true
+
+/-- the outcomes of a history when every step is asked on a database freshly built from the
+registrations made so far (`ar` applied to that registry for the arithmetic questions) -/
+def xfreshOutputs {α : Type} (ar : Registry → VExpr → α) (r : Registry) : List XOp → List (XOut α)
+  | [] => []
+  | .base (.reg op) :: ops => .base (exMap COut.reg (step lg r op).2) :: xfreshOutputs ar (step lg r op).1 ops
+  | .base (.query q) :: ops => .base (exMap COut.ans (spec lg r q)) :: xfreshOutputs ar r ops
+  | .arith e :: ops => .val (ar r e) :: xfreshOutputs ar r ops
+
+/-- a session history keeps the registry well-formed -/
+theorem cstep_regInv {s : CState} (h : RegInv s.reg) (op : COp) : RegInv (cstep lg s op).1.reg := by
+  cases op with
+  | query q => simp only [cstep]; rw [answer_reg]; exact h
+  | reg op =>
+    have := (cstep_reg_out lg s op).2
+    rw [this]
+    exact step_inv lg h op
+
+theorem crun_regInv {s : CState} (h : RegInv s.reg) (ops : List COp) : RegInv (crun lg s ops).reg := by
+  induction ops generalizing s with
+  | nil => exact h
+  | cons op ops ih => exact ih (cstep_regInv lg h op)
+
+/-! ### families of sessions: only the addressed member moves -/
+
+section Family
+variable {σ ι ο : Type} (f : σ → ι → σ × ο)
+
+theorem runN_apply (s : Nat → σ) (ops : List (Nat × ι)) (i : Nat) :
+    runN f s ops i = frun f (s i) (partOf i ops) := by
+  induction ops generalizing s with
+  | nil => rfl
+  | cons op ops ih =>
+    obtain ⟨j, a⟩ := op
+    simp only [runN, partOf]
+    rw [ih]
+    by_cases h : j = i
+    · subst h; simp [stepN, frun]
+    · have h' : ¬ i = j := fun e => h e.symm
+      simp [stepN, h, h']
+
+theorem outputsN_part (s : Nat → σ) (ops : List (Nat × ι)) (i : Nat) :
+    partOf i (outputsN f s ops) = fouts f (s i) (partOf i ops) := by
+  induction ops generalizing s with
+  | nil => rfl
+  | cons op ops ih =>
+    obtain ⟨j, a⟩ := op
+    simp only [outputsN, partOf]
+    by_cases h : j = i
+    · subst h; simp [stepN, fouts, ih]
+    · have h' : ¬ i = j := fun e => h e.symm
+      simp [stepN, h, h', ih]
+
+end Family
+
+theorem frun_cstep (s : CState) (ops : List COp) : frun (cstep lg) s ops = crun lg s ops := by
+  induction ops generalizing s with
+  | nil => rfl
+  | cons op ops ih => simp only [frun, crun]; exact ih _
+
+theorem fouts_cstep (s : CState) (ops : List COp) : fouts (cstep lg) s ops = coutputs lg s ops := by
+  induction ops generalizing s with
+  | nil => rfl
+  | cons op ops ih => simp only [fouts, coutputs]; rw [ih]
+
+theorem frun_xstep {α : Type} (ar : Registry → VExpr → α) (s : CState) (ops : List XOp) :
+    frun (xstep lg ar) s ops = xrun lg ar s ops := by
+  induction ops generalizing s with
+  | nil => rfl
+  | cons op ops ih => simp only [frun, xrun]; exact ih _
+
+theorem fouts_xstep {α : Type} (ar : Registry → VExpr → α) (s : CState) (ops : List XOp) :
+    fouts (xstep lg ar) s ops = xoutputs lg ar s ops := by
+  induction ops generalizing s with
+  | nil => rfl
+  | cons op ops ih => simp only [fouts, xoutputs]; rw [ih]
 
 end Barril.Reg
